@@ -34,18 +34,30 @@ def strip_comments(src):
     return "".join(res)
 
 
+def project_files():
+    """the .lean files of the build: everything reachable by imports from the three roots"""
+    seen, todo = set(), ["Prtpy", "PrtpyProofs", "Driver"]
+    while todo:
+        m = todo.pop()
+        if m in seen:
+            continue
+        path = os.path.join(LEAN, *m.split(".")) + ".lean"
+        if not os.path.exists(path):
+            continue
+        seen.add(m)
+        for line in strip_comments(open(path).read()).splitlines():
+            mm = re.match(r"\s*import\s+((?:Prtpy|PrtpyProofs)[\w.]*)", line)
+            if mm:
+                todo.append(mm.group(1))
+    return sorted(os.path.join(LEAN, *m.split(".")) + ".lean" for m in seen)
+
+
 def grep_forbidden():
     hits = []
-    for root, _, files in os.walk(LEAN):
-        if ".lake" in root:
-            continue
-        for fn in files:
-            if not fn.endswith(".lean"):
-                continue
-            p = os.path.join(root, fn)
-            for ln, line in enumerate(strip_comments(open(p).read()).splitlines(), 1):
-                if FORBIDDEN.search(line):
-                    hits.append(f"{os.path.relpath(p, LEAN)}:{ln}: {line.strip()[:120]}")
+    for p in project_files():
+        for ln, line in enumerate(strip_comments(open(p).read()).splitlines(), 1):
+            if FORBIDDEN.search(line):
+                hits.append(f"{os.path.relpath(p, LEAN)}:{ln}: {line.strip()[:120]}")
     return hits
 
 
@@ -73,9 +85,9 @@ def audit(pid):
             f.write("import PrtpyProofs\n" + "".join(f"#print axioms {t['name']}\n" for t in proved))
         rc2, o2 = run(["lake", "env", "lean", fn], cwd=LEAN)
         res["log"] += o2[-4000:] if rc2 != 0 else ""
-        for m in re.finditer(r"'([^']+)' depends on axioms: \[([^\]]*)\]", o2.replace("\n", " ")):
+        for m in re.finditer(r"'(\S+)' depends on axioms: \[([^\]]*)\]", o2.replace("\n", " ")):
             axioms[m.group(1)] = [a.strip() for a in m.group(2).split(",") if a.strip()]
-        for m in re.finditer(r"'([^']+)' does not depend on any axioms", o2):
+        for m in re.finditer(r"'(\S+)' does not depend on any axioms", o2):
             axioms[m.group(1)] = []
     for t in proved:
         ax = axioms.get(t["name"])
